@@ -185,8 +185,10 @@ XInner == XDicts(XKeyFormsIn, XVin \cup XLists(XVin, XListMaxIn), XVin)
 XCases == IF XDepth = 0 THEN XV0
           ELSE IF XDepth = 1 THEN XV0 \cup XLists(XV0, XListMax) \cup XDicts(XKeyForms, XV0 \cup XLists(XV0, XListMax), XV0)
           ELSE XDicts(XKeyForms, XVin \cup XInner \cup XLists(XVin \cup XInner, XListMax), XVin)
-MD2X == "d2x" \in Acts /\ CanLog /\ \E v \in XCases, useroot \in BOOLEAN :
-            D2X("r", v, useroot) /\ PLog([op |-> "d2x", tag |-> "r", v |-> v, useroot |-> useroot])
+\* (with roottag= the root may carry the name of one of the dict's own keys)
+MD2X == "d2x" \in Acts /\ CanLog /\ \E v \in XCases, useroot \in BOOLEAN, tag \in {"r", "a"} :
+            /\ (tag = "a" => useroot)
+            /\ D2X(tag, v, useroot) /\ PLog([op |-> "d2x", tag |-> tag, v |-> v, useroot |-> useroot])
 MXRT == "xrt" \in Acts /\ CanLog /\ \E v \in XCases : XRT("r", v) /\ PLog([op |-> "xrt", tag |-> "r", v |-> v])
 MXWrap == "xwrap" \in Acts /\ CanLog /\ \E v \in XCases : XWrap(v) /\ PLog([op |-> "xwrap", v |-> v])
 
